@@ -219,7 +219,14 @@ func structMap(t *Term, val func(i int) any) (any, bool) {
 				return nil, false
 			}
 		}
-		fs = append(fs, reflect.StructField{Name: strings.ToUpper(k[:1]) + k[1:], Type: anyType})
+		// fields of the common kinds are TYPED (bool, int, float64, string), as in real field maps such
+		// as storedefs.Dir{Path string; Score float64}; everything else is an `any` field
+		ft := anyType
+		switch val(len(fs)).(type) {
+		case bool, int, float64, string:
+			ft = reflect.TypeOf(val(len(fs)))
+		}
+		fs = append(fs, reflect.StructField{Name: strings.ToUpper(k[:1]) + k[1:], Type: ft})
 	}
 	s := reflect.New(reflect.StructOf(fs)).Elem()
 	for i := range t.Pairs {
